@@ -365,7 +365,9 @@ impl Runner {
                                             (None, None)
                                         };
                                         if let (Some(u), Some(l)) = (up, lo) {
-                                            if lit_lt(u, l) {
+                                            // upper below lower, or equal bounds with a strict side
+                                            let strict = matches!(o1, Cmp::Lt | Cmp::Gt) || matches!(o2, Cmp::Lt | Cmp::Gt);
+                                            if lit_lt(u, l) || (strict && !lit_lt(l, u)) {
                                                 return true;
                                             }
                                         }
